@@ -78,6 +78,8 @@ class ConcurrentInvocation(BaseInvocation[Params, Result]):
             self.task.logger.info(f"Sync invocation:{self.invocation_id} started")
             self._status = InvocationStatus.RUNNING
             context._get_sync_inv_context_storage()[self.app.app_id] = self
+            # Every (re-)execution replays the workflow operations from the start
+            self._deterministic_executor = None
             result = run_task_sync(self.task.func, **self.arguments.kwargs)
             self._status = InvocationStatus.SUCCESS
             self.task.logger.info(f"Sync invocation:{self.invocation_id} finished")
